@@ -445,3 +445,99 @@ theorem parse_lossless_partial_budget (rules : Rules) (errLen : List Char → Na
 end grammar
 
 end Goml.C12
+
+namespace Goml.C12.Grammar
+open Goml.ParserFuel
+
+/-! ## the grammar side of `ha`: the top-level loop, also when it is entered out of fuel
+
+`parse_lossless_partial` needs one `Advance` event per non-trivia token. On the model of the parser's
+progress machinery (`Model/ParserFuel.lean`: tokens = the non-trivia tokens, `isEof` = `Parser::eof`
+= `Input::eof`, fuel from `Gen/Consts.lean`) this is a theorem for ANY item parsers built from the
+primitives, from ANY well-formed state — in particular after a lookahead-only scan of any length
+(`impl_has_trait`; `Gen/Lookahead.lean` lists such functions) has left the parser without fuel. -/
+
+/-- **file_advances_cover_tokens**: `while !p.eof() { if p.at(..) … else { advance_with_error } }`
+started in any well-formed state whose cursor is covered by `Advance` events ends at the real end of
+input with at least as many `Advance` events as there are tokens — whatever the branches do, as long
+as they are parser functions (`StepOK`, `KeepsCovered`) and no guard accepts `eof` -/
+theorem file_advances_cover_tokens (bs : List ((Kind → Bool) × (St → St)))
+    (hbs : ∀ b ∈ bs, StepOK b.2 ∧ KeepsCovered b.2 ∧ b.1 EOF = false)
+    (s : St) (hw : Wf s) (hc : CursorCovered s) :
+    ∃ r c, runLoop none (dispatch bs) (Goml.ParserFuel.measure s) s = some (r, c) ∧
+      r.toks = s.toks ∧ r.cursor = s.toks.length ∧ s.toks.length ≤ r.advances := by
+  have hbs1 : ∀ b ∈ bs, StepOK b.2 ∧ b.1 EOF = false := fun b hb => ⟨(hbs b hb).1, (hbs b hb).2.2⟩
+  have hbs2 : ∀ b ∈ bs, KeepsCovered b.2 := fun b hb => (hbs b hb).2.1
+  obtain ⟨r, c, hr, _, wr, tr⟩ :=
+    loop_terminates none (dispatch bs) (dispatch_progress bs hbs1) (Goml.ParserFuel.measure s) s hw (Nat.le_refl _)
+  have hcov : CursorCovered r :=
+    runLoop_keepsCovered none (dispatch bs) (dispatch_keepsCovered bs hbs2) _ s r c hc hr
+  have hcur : r.cursor = s.toks.length := by
+    rcases runLoop_exit none (dispatch bs) _ _ r c hr with he | ⟨k, _, hk, _⟩
+    · have h1 : r.toks.length ≤ r.cursor := by simpa [isEof] using he
+      have h2 := wr.1
+      rw [tr] at h1 h2; omega
+    · cases hk
+  refine ⟨r, c, hr, tr, hcur, ?_⟩
+  unfold CursorCovered at hcov
+  omega
+
+/-- … in particular after a scan of any length that only looks (two `nth` per path segment in
+`impl_has_trait`), which may have used up all the fuel: the loop still consumes every token -/
+theorem file_after_lookahead (bs : List ((Kind → Bool) × (St → St)))
+    (hbs : ∀ b ∈ bs, StepOK b.2 ∧ KeepsCovered b.2 ∧ b.1 EOF = false) (toks : List Kind) (ns : List Nat) :
+    ∃ r c, runLoop none (dispatch bs) (Goml.ParserFuel.measure (looks ns (init toks))) (looks ns (init toks)) = some (r, c) ∧
+      r.cursor = toks.length ∧ toks.length ≤ r.advances := by
+  obtain ⟨r, c, hr, _, h1, h2⟩ := file_advances_cover_tokens bs hbs (looks ns (init toks))
+    ((looks_stepOK ns) (init toks) (init_wf toks)).1 (looks_keepsCovered ns _ (init_covered toks))
+  rw [looks_toks] at h1 h2
+  exact ⟨r, c, hr, h1, h2⟩
+
+/-- a scan that looks exactly `parserFuel` times and consumes nothing (a path of `parserFuel / 2`
+segments under `impl_has_trait`) -/
+@[irreducible] def fuelScan : St → St := looks (List.replicate FUEL 0)
+
+/-- **fuel_aware_eof_drops_tokens**: the hypothesis "`eof()` does not go through `peek()`" is needed.
+With the fuel-aware reading `p.at(T![eof])` in the loop condition, item parsers that ARE parser
+functions and guards that reject `eof` no longer suffice: after a branch that only looks `parserFuel`
+times the loop leaves in front of unconsumed tokens (the tree then lacks them). -/
+theorem fuel_aware_eof_drops_tokens :
+    ∃ (bs : List ((Kind → Bool) × (St → St))) (toks : List Kind),
+      (∀ b ∈ bs, StepOK b.2 ∧ KeepsCovered b.2 ∧ b.1 EOF = false) ∧
+      ∃ r c, runLoopPeekEof (dispatch bs) 1 (init toks) = some (r, c) ∧
+        r.cursor < toks.length ∧ r.advances < toks.length := by
+  have h1 : StepOK fuelScan := by unfold fuelScan; exact looks_stepOK (List.replicate FUEL 0)
+  have h2 : KeepsCovered fuelScan := by unfold fuelScan; exact looks_keepsCovered (List.replicate FUEL 0)
+  have h3 : (fun k : Kind => k == "impl") EOF = false := by decide
+  refine ⟨[((fun k : Kind => k == "impl"), fuelScan)], ["impl", "Seg", "::", "Seg"], ?_, ?_⟩
+  · intro b hb
+    simp only [List.mem_singleton] at hb
+    subst hb
+    exact ⟨h1, h2, h3⟩
+  · have h : (runLoopPeekEof (dispatch [((fun k : Kind => k == "impl"), fuelScan)]) 1
+        (init ["impl", "Seg", "::", "Seg"])).map (fun rc => (rc.1.cursor, rc.1.advances)) = some (0, 0) := by
+      decide +kernel
+    cases hr : runLoopPeekEof (dispatch [((fun k : Kind => k == "impl"), fuelScan)]) 1
+        (init ["impl", "Seg", "::", "Seg"]) with
+    | none => rw [hr] at h; cases h
+    | some rc =>
+      obtain ⟨r, c⟩ := rc
+      rw [hr] at h
+      simp only [Option.map_some, Option.some.injEq, Prod.mk.injEq] at h
+      refine ⟨r, c, rfl, ?_, ?_⟩
+      · rw [h.1]; decide
+      · rw [h.2]; decide
+
+/-- non-vacuity of `file_after_lookahead`, and the same input under both readings of `eof`: an item
+parser that scans ahead `parserFuel` times and then consumes nothing. With `Parser::eof` the default
+branch eats the four tokens one by one (4 `Advance` events, 4 errors); with the fuel-aware reading
+the loop stops at token 0. -/
+example :
+    let bs : List ((Kind → Bool) × (St → St)) := [((· == "impl"), fuelScan)]
+    (runLoop none (dispatch bs) 10 (init ["impl", "Seg", "::", "Seg"])).map (fun (r, c) => (r.cursor, r.advances, c))
+        = some (4, 4, 5) ∧
+      (runLoopPeekEof (dispatch bs) 10 (init ["impl", "Seg", "::", "Seg"])).map (fun (r, c) => (r.cursor, r.advances, c))
+        = some (0, 0, 1) := by
+  decide +kernel
+
+end Goml.C12.Grammar
